@@ -219,10 +219,10 @@ class Renderer:
             lines.append("%s@classmethod" % ind)
         elif kind == "getter":
             lines.append("%s@property" % ind)
-        elif kind == "setter":
-            lines.append("%s@%s.setter" % (ind, f["name"]))
-        elif kind == "deleter":
-            lines.append("%s@%s.deleter" % (ind, f["name"]))
+        elif kind in ("setter", "deleter"):
+            # "extends": the accessor is added to a property INHERITED from that class (`@Base.p.setter`)
+            owner = f["name"] if f.get("extends") is None else "%s.%s" % (self.p["classes"][f["extends"]]["name"], f["name"])
+            lines.append("%s@%s.%s" % (ind, owner, kind))
         lines += self.deco_lines(f.get("decos", []), ind)
         name = {"init": "__init__", "new": "__new__"}.get(kind, f["name"])
         lines.append("%s%sdef %s(%s):" % (ind, "async " if f.get("async") else "", name, ", ".join(sigparts)))
